@@ -3,6 +3,7 @@ package props
 import (
 	"bytes"
 	"fmt"
+	"github.com/itchio/lake"
 	"os"
 	"path/filepath"
 	"sort"
@@ -83,6 +84,14 @@ func c02Run(c lib.Case, env *lib.Env) lib.Result {
 	res := lib.Result{}
 	pair := lib.GenPair(s.PairSeed, s.Opts)
 	res.NonTrivial = pair.NonTrivial()
+	if c.ID%3 == 1 {
+		// the pools given to the patcher and the optimizer hand a just-used reader back at an arbitrary position
+		lib.TargetPoolWrap = func(p lake.Pool) lake.Pool {
+			return &lib.StalePool{Inner: p, Rng: lib.NewRng(lib.Mix(s.PairSeed, 21))}
+		}
+		defer func() { lib.TargetPoolWrap = nil }()
+		res.Add("cases_over_stale_position_pools", 1)
+	}
 	oldDir, newDir := filepath.Join(env.Scratch, "old"), filepath.Join(env.Scratch, "new")
 	if err := pair.Old.Materialize(oldDir); err != nil {
 		res.Inconclusive("materialize: " + err.Error())
